@@ -2,7 +2,15 @@ package parser
 
 import (
 	"strings"
+	"unicode"
 )
+
+// lineStart prepares a word to be the first on a description line: the lexer
+// skips all white space after the '|', so leading tabs etc. would not survive
+// a second pass.
+func lineStart(word string) string {
+	return strings.TrimLeftFunc(word, unicode.IsSpace)
+}
 
 func reformatDescription(input string, maxWidth int) []string {
 	lines := strings.Split(input, "\n")
@@ -34,12 +42,12 @@ func reformatDescription(input string, maxWidth int) []string {
 		words := strings.Split(line, " ")
 		for _, word := range words {
 			if pend == "" {
-				pend = word
+				pend = lineStart(word)
 				continue
 			}
 			if len(pend)+len(word) > maxWidth {
 				linesOut = append(linesOut, pend)
-				pend = word
+				pend = lineStart(word)
 				continue
 			}
 			pend += " " + word
